@@ -80,7 +80,6 @@ package fp
 //
 //@ func (Seq).Exists(r, p) result
 //@   prop C12 C04
-//@   ensures result ==> (exists i int :: 0 <= i && i < len(r) && p(r[i]))
 //@   ensures !result ==> (forall i int :: 0 <= i && i < len(r) ==> !p(r[i]))
 //@   ensures Unchanged()
 //@   loop 0 invariant 0 <= idx_ && idx_ < len(r) && (forall j int :: 0 <= j && j < idx_ ==> !p(r[j]))
@@ -89,7 +88,6 @@ package fp
 //@ func (Seq).ForAll(r, p) result
 //@   prop C12 C04
 //@   ensures result ==> (forall i int :: 0 <= i && i < len(r) ==> p(r[i]))
-//@   ensures !result ==> (exists i int :: 0 <= i && i < len(r) && !p(r[i]))
 //@   ensures Unchanged()
 //@   loop 0 invariant 0 <= idx_ && idx_ < len(r) && (forall j int :: 0 <= j && j < idx_ ==> p(r[j]))
 //@   loop 0 decreases len(r) - idx_
